@@ -49,13 +49,6 @@ def gymCall? (v : Val) : Option (Option Int) :=
   | .list [.atom "s", a] => a.int?.map some
   | _ => none
 
-def gymRun (S : SimIface StubSt Int (List Int) (List Int)) (k : MKind) (ag : Aid) :
-    MState StubSt → List (Option Int) → List (Except Err (GymOut (List Int) (List Int)) × E)
-  | _, [] => []
-  | m, c :: cs =>
-    let r := gymCall S k ag m c
-    (r.1, r.2.1) :: gymRun S k ag r.2.2 cs
-
 def handleGym (args : List Val) : Option Val := do
   match args with
   | [k, sc, ag, calls, impl] =>
@@ -66,7 +59,7 @@ def handleGym (args : List Val) : Option Val := do
     let S := stubSim sc
     let tr := gymRun S k ag (mgrInit ({} : StubSt) false []) calls
     let spec := fun (t : List (Except Err (GymOut (List Int) (List Int)) × E)) =>
-      t.length == calls.length && (calls.zip t).all (fun p => specGym ag p.1 p.2.1 p.2.2)
+      gymLoop ag {} calls t
     let implV ← impl.list?
     let is : Val :=
       if implV.isEmpty && !calls.isEmpty then .int (-1)
